@@ -231,7 +231,19 @@ def run_case(desc, ctx):
             if v1 < 0:
                 bad(f"negative value {v1!r}")
         # ---- zero when every member equals the real data (no filters: they act on the simulated side only)
-        zero_kind = kind in ("minkowski", "fourier") or (kind == "msm" and d["cov"] == "identity" and not d["standardise"])
+        zero_kind = kind in ("minkowski", "fourier") or (kind == "msm" and d["cov"] == "identity")
+        if zero_kind and kind == "msm" and d["standardise"]:
+            from vlib import lossref as _R
+
+            calc = _R.moments18 if d["calc"] == "default" else G.CALCS[d["calc"]][0]
+            try:
+                rms = [np.asarray(calc(np.asarray(real[:, i], dtype=float)), dtype=float) for i in range(D)]
+                if any((not np.all(np.isfinite(m))) or np.any(np.abs(m) < 1e-9) for m in rms):
+                    zero_kind = False   # standardisation divides by |real moment|: undefined when one vanishes
+                else:
+                    cnt("zero_equal_standardised")
+            except Exception:  # noqa: BLE001
+                zero_kind = False
         if zero_kind and kind == "fourier" and d["filter"] == "gaussian" and round(d["f"] * (N // 2 + 1)) == 0:
             zero_kind = False  # Gaussian length scale rounds to 0: the filter (and so the loss) is undefined (0/0), as in C07's guard
             cnt("zero_equal_skipped_sigma0")
